@@ -101,6 +101,9 @@ pub struct Profile {
     pub huge_burst: bool,
     /// bursts are get-bursts only (many distinct keys looked up once: drives the sketch to an aging step)
     pub burst_gets_only: bool,
+    /// occasionally use a mid-sized capacity (300..2000) that is first filled with several
+    /// hundred unit-weight entries (more than one eviction batch), with weights up to the capacity
+    pub mid: bool,
 }
 
 pub fn profile_for(prop: &str, thorough: bool) -> Profile {
@@ -120,6 +123,7 @@ pub fn profile_for(prop: &str, thorough: bool) -> Profile {
         huge: matches!(prop, "C03" | "C04" | "C08" | "C10" | "C12" | "C13"),
         huge_burst: prop == "C08",
         burst_gets_only: matches!(prop, "C12" | "C13"),
+        mid: matches!(prop, "C03" | "C04" | "C08" | "C10"),
     };
     match prop {
         "C01" => {
@@ -131,6 +135,7 @@ pub fn profile_for(prop: &str, thorough: bool) -> Profile {
             p.w.iter = 7;
         }
         "C03" => {
+            p.w.burst = 1;
             p.cap = CapMode::Mixed;
             p.w.insert_batch = 3;
             p.w.warm_insert = 6;
@@ -139,6 +144,7 @@ pub fn profile_for(prop: &str, thorough: bool) -> Profile {
             p.w.enter_beyond = 8;
         }
         "C04" => {
+            p.w.burst = 2;
             p.cap = CapMode::Bounded;
             p.w.warm_insert = 10;
             p.w.insert = 40;
@@ -165,6 +171,9 @@ pub fn profile_for(prop: &str, thorough: bool) -> Profile {
             p.w.contains = 12;
         }
         "C07" => {
+            p.w.burst = 1;
+            p.burst_sizes = vec![130, 600];
+            p.w.fresh_lookup = 4;
             p.w.iter_advance = 5;
             p.cap = CapMode::Mixed;
             p.w.invalidate = 14;
@@ -395,10 +404,14 @@ pub fn build_case(p: &Profile, rc: RawCfg, raw_ops: Vec<RawOp>) -> Case {
         ExpMode::Ttl => (dur_sel(rc.ttl, true), if rc.tti % 3 == 0 { dur_sel(rc.tti, false) } else { None }),
         ExpMode::Tti => (if rc.ttl % 3 == 0 { dur_sel(rc.ttl, false) } else { None }, dur_sel(rc.tti, true)),
     };
-    if plain_sync {
+    // (a third of these cases keeps its expiry settings: the lock-step model follows the
+    // concurrent cache with expiry as long as every operation is followed by sync())
+    let sync_with_expiry = plain_sync && p.sync_every_op && rc.cap_slack % 3 == 1;
+    if plain_sync && !sync_with_expiry {
         ttl = None;
         tti = None;
     }
+    let sync_with_expiry = sync_with_expiry && (ttl.is_some() || tti.is_some());
     let init_cap = [None, None, Some(0), Some(1), Some(1000)][idx(rc.init_cap as u32, 256, 5) as usize];
 
     // provisional capacity for the weight table (final value may depend on the ops)
@@ -426,7 +439,13 @@ pub fn build_case(p: &Profile, rc: RawCfg, raw_ops: Vec<RawOp>) -> Case {
     let huge = p.huge && weigher == WeigherKind::Value && rc.cap_slack % 12 == 5 && cap_choice == 1;
     let huge_caps: [u64; 5] = [u32::MAX as u64, 1 << 32, 1 << 50, 1 << 33, 1 << 50];
     let huge_cap = huge_caps[idx(rc.cap_small as u32, 256, 5) as usize];
-    let table = if huge { vec![0, 1, 1 << 31, (1 << 31) + 1, u32::MAX - 1, u32::MAX, 1 << 31, u32::MAX] } else { weight_table(cap_for_table) };
+    let mid = p.mid && !huge && cap_choice == 1 && rc.cap_slack % 12 == 7 && hasher != HasherKind::Collide;
+    let mid_cap = [300u64, 600, 1000, 2000][idx(rc.cap_small as u32, 256, 4) as usize];
+    let cap_for_table = if mid { Some(mid_cap) } else { cap_for_table };
+    let table = if mid {
+        let c = mid_cap as u32;
+        vec![0, 1, 1, 2, c / 20, c / 10, c / 4, c / 3, c / 2 + 1, c]
+    } else if huge { vec![0, 1, 1 << 31, (1 << 31) + 1, u32::MAX - 1, u32::MAX, 1 << 31, u32::MAX] } else { weight_table(cap_for_table) };
     let wmap = |k: u32, w: u8| -> u32 {
         if rc.weight_by_key && !matches!(weigher, WeigherKind::None) {
             table[((k * 7 + 3) as usize) % table.len()]
@@ -521,7 +540,12 @@ pub fn build_case(p: &Profile, rc: RawCfg, raw_ops: Vec<RawOp>) -> Case {
                 }
             }
             RawOp::Burst { n, w, gets } => {
-                if !p.burst_sizes.is_empty() {
+                if mid {
+                    let c = mid_cap as u32;
+                    let n = [60, 150, c / 2][idx(n as u32, 256, 3) as usize];
+                    let w = [1, 1, c / 20, c / 10][idx(w as u32, 256, 4) as usize];
+                    push(&mut ops, Op::Burst { n, w, gets: gets && w == 1 && p.burst_sizes.is_empty() })
+                } else if !p.burst_sizes.is_empty() {
                     let n = p.burst_sizes[idx(n as u32, 256, p.burst_sizes.len() as u32) as usize];
                     let wsel = idx(w as u32, 256, 6);
                     if p.burst_gets_only {
@@ -561,7 +585,7 @@ pub fn build_case(p: &Profile, rc: RawCfg, raw_ops: Vec<RawOp>) -> Case {
                 }
             }
             RawOp::InsertBatch { items, n } => {
-                if kind == Kind::Sync {
+                if kind == Kind::Sync && !sync_with_expiry {
                     // every third batch writes the same one or two keys repeatedly (a queued
                     // write superseded by another one before maintenance applies either),
                     // after making them popular enough to be admitted
@@ -607,6 +631,17 @@ pub fn build_case(p: &Profile, rc: RawCfg, raw_ops: Vec<RawOp>) -> Case {
         extra: vec![],
         drop_unsynced: p.drop_unsynced && rc.drop_unsynced && kind == Kind::Sync,
     };
+    if mid {
+        // fill (part of) the capacity with unit-weight entries after the first few operations
+        let c = mid_cap as u32;
+        let fill = [c / 2, c * 6 / 10, c, c + 50][(rc.nkeys % 4) as usize];
+        let at = case.ops.len().min(4);
+        let mut pro = vec![Op::Burst { n: fill, w: 1, gets: false }];
+        if kind == Kind::Sync {
+            pro.push(Op::Sync);
+        }
+        case.ops.splice(at..at, pro);
+    }
     if huge && p.huge_burst && hasher == HasherKind::Sip {
         case.ops.push(Op::Burst { n: 140_000, w: u32::MAX, gets: false });
         if kind == Kind::Sync {
